@@ -17,6 +17,8 @@ import H3.Spec.Qpack
         q0.res           server: resolve_request          snd.R:GET:<https://a/ hex>:<hdrs>  client
         q0.sr:<status>:<hdrs>  send_response              q0.rr   recv_response
         q0.st:<hdrs>     send_trailers                    q0.rt   recv_trailers
+        snd.R:… again    client: further requests on the SAME `SendRequest` handle (streams 4, 8, …;
+                         a request refused for its size has opened its stream and written nothing)
 
     and prints what `Prop.project` keeps of the real run: the results of the `q0`/`snd` calls
     (`ok` without the message), the bytes written on stream 0 with its stop/reset codes, and
@@ -115,6 +117,10 @@ structure St where
   tag : Bool := false
   unsure : Bool := false
   bad : Bool := false
+  /-- client: number of `send_request` calls so far (each opens the next bidirectional stream, also
+      when the request is then refused) and what was written on the streams after stream 0 -/
+  nreq : Nat := 0
+  more : List (Nat × List Nat) := []
 
 def St.log (s : St) (e : String) : St := { s with trace := s.trace ++ [e] }
 
@@ -230,14 +236,25 @@ def step (d : Decisions) (s : St) (op : String) : St :=
         if !s.rx.isEmpty then unsupported else
         applyRecv d (if s.server then .serverTrailers else .clientTrailers) "q0.rt" "trailers" payload s
     else if head == "snd.R" then
-      if s.server || s.s0 then unsupported else
+      if s.server then unsupported else
       match arg.splitOn ":" with
       | ["GET", "68747470733a2f2f612f", hdrs] =>
         match parseHdrs hdrs with
         | none => unsupported
         | some hs =>
-          let (s, ok) := applySend d "snd.R" "req:0" (requestFields hs) { s with s0 := true }
-          { s with q0 := ok }
+          if !s.s0 then
+            let (s, ok) := applySend d "snd.R" "req:0" (requestFields hs) { s with s0 := true }
+            { s with q0 := ok, nreq := 1 }
+          else
+            -- a further request on the same handle: its own stream, its own field section —
+            -- nothing of an earlier request (accepted or refused) is part of it
+            let sid := 4 * s.nreq
+            match d.send s.peer (requestFields hs) with
+            | .written b =>
+              { (s.log s!"snd.R=req:{sid}") with more := s.more ++ [(sid, headersFrame b)], nreq := s.nreq + 1 }
+            | .refused a m =>
+              { (s.log s!"snd.R=err:toobig:{a}:{m}") with more := s.more ++ [(sid, [])], nreq := s.nreq + 1 }
+            | .panic => unsupported
       | _ => unsupported
     else if head == "q0.rr" then
       if s.server || !s.q0 || s.resolved then unsupported else
@@ -253,7 +270,8 @@ def render (s : St) : String :=
       s!"0:tx={toHex s.tx}" ++ (match s.stop with | some c => s!",stop={c}" | none => "") ++ " "
     else ""
   let cl := ",".intercalate (s.closed.map toString)
-  s!"{t} | {st}closed=[{cl}]"
+  let more := String.join (s.more.map (fun p => s!"{p.1}:tx={toHex p.2} "))
+  s!"{t} | {st}{more}closed=[{cl}]"
 
 def run (d : Decisions) (server : Bool) (mfs : Nat) (ops : List String) : String :=
   let s := ops.foldl (step d) { server := server, mfs := mfs }
